@@ -350,3 +350,93 @@ def run(ctx):
         r5.ok("the connected descriptor's EPOLLOUT registration is removed when it is handed over", "case region")
     else:
         r5.violation("track_get_connected_fd:reg", "the connected descriptor stays registered for EPOLLOUT (always writable: the loop spins)", loc=tg.file)
+
+    # ------------------------------------------------------------------ R6
+    r6 = ctx.rule("C16.R6", "a registration's kernel mask is the requested one: the no-op shortcut of the epoll wrapper is taken on equality only")
+    wrappers = [f for f in P.fns_in("core/xpoll.c") if any(True for _ in f.calls("epoll_ctl")) and any(p["name"] for p in f.params if "event" in p["name"])]
+    if not wrappers:
+        raise Broken("C16.R6: the epoll_ctl wrapper of xpoll.c was not found")
+    for f in wrappers:
+        evp = [p["name"] for p in f.params if "event" in p["name"]]
+        r6.instance(f.qname)
+        bad6 = []
+        nquiet = [0]
+
+        class Shortcut(C.Rule):
+            def initial(s2, fn):
+                return (False, False)       # (equality of the stored and the requested mask known, epoll_ctl called)
+
+            def branch(s2, fn, st, blk, cond, label):
+                if label not in ("T", "F"):
+                    return None
+                l, op, r = C.cond_atom(fn, cond, label == "T")
+                if isinstance(r, tuple):
+                    return None
+                names = {fn.sn(l).get("name"), fn.sn(r).get("name")}
+                flds = {fn.fields_of(l)[-1:] or None, fn.fields_of(r)[-1:] or None}
+                if op == "==" and names & set(evp) and ("event",) in flds:
+                    return (True, st[1])
+                return None
+
+            def elem(s2, fn, st, nid, blk, idx):
+                n = fn.nodes[nid]
+                if n["k"] == "call" and n.get("callee") == "epoll_ctl":
+                    return (st[0], True)
+                return None
+
+            def at_exit(s2, fn, st, blk):
+                if not st[1]:
+                    nquiet[0] += 1
+                    if not st[0]:
+                        bad6.append(blk.id)
+        C.explore(f, Shortcut())
+        if nquiet[0] < 1:
+            raise Broken("C16.R6: %s has no path without epoll_ctl (the equality shortcut)" % f.name)
+        if bad6:
+            r6.violation("%s:shortcut" % f.name, "%s can return without calling epoll_ctl on a path where the stored mask was not found equal to the requested one: "
+                         "a registration is left wider (or narrower) than asked - EPOLLOUT left on an idle socket keeps xcm_fd() readable for nothing" % f.name, loc=f.file)
+        else:
+            r6.ok("%s skips epoll_ctl only when the stored mask equals the requested one" % f.qname, "path exploration")
+
+    # ------------------------------------------------------------------ R7
+    r7 = ctx.rule("C16.R7", "the control listener is parked exactly while the session table is full")
+    cfile = [f for f in P.functions if f.file.endswith("ctl/ctl.c")]
+    npark = 0
+    for f in cfile:
+        dom = None
+        for c in f.calls("xpoll_fd_reg_mod"):
+            ev = C.const_of(f, f.nodes[c]["args"][2])
+            if ev is None or "server" not in "".join(f.fields_of(f.nodes[c]["args"][1])):
+                continue            # only the listener's registration (the sessions' own registrations follow their pending replies)
+            wb, wi = f.where()[c]
+            # the guard: a comparison of the session count with a constant, on whose true edge the call sits
+            guards = []
+            for b, cond in C.cond_blocks(f):
+                l, op, r = C.cond_atom(f, cond, True)
+                if not isinstance(r, tuple) and f.fields_of(l)[-1:] == ("num_clients",) and C.const_of(f, r) is not None and op == "==" and wb in C.only_via_edge(f, b, "T"):
+                    guards.append(b)
+            npark += 1
+            r7.instance("%s: %s" % (f.qname, f.show(c)[:60]))
+            if not guards:
+                r7.violation("%s:park-unguarded" % f.name, "the listener's interest is changed without a test of the session count against the table size", loc=f.loc(c))
+                continue
+            dom = dom or C.dominators(f)
+            cnt_stores = [(b.id, i, op) for b, i, e, lhs, rhs, op in f.stores() if f.fields_of(lhs)[-1:] == ("num_clients",)]
+            g = guards[0]
+            gpos = (g.id, len(g.elems))
+            ok7 = True
+            for sb, si, op in cnt_stores:
+                before = sb in dom[g.id]                                   # the store's block dominates the guard
+                reaches = g.id in C.reachable_blocks(f, sb) and sb != g.id  # the guard can run after the store
+                if ev == 0 and op in ("++", "post++", "+=") and not before:
+                    ok7 = False     # parking must look at the count after the new session was added
+                if ev != 0 and op in ("--", "post--", "-=") and (reaches or sb == g.id):
+                    ok7 = False     # un-parking must look at the count before the session is removed
+            if ok7 and cnt_stores:
+                r7.ok("%s: the table-full test sees the count %s" % (f.qname, "after the increment" if ev == 0 else "before the decrement"), "dominance")
+            else:
+                r7.violation("%s:park-order" % f.name, "%s tests the session count on the wrong side of its update: the listener %s - a client waiting in the backlog keeps "
+                             "xcm_fd() readable although nothing can be accepted" % (f.name, "is not parked when the table becomes full" if ev == 0 else "is not released when a slot frees"),
+                             loc=f.loc(c))
+    if npark < 2:
+        raise Broken("C16.R7: only %d park/release sites of the control listener" % npark)
